@@ -270,6 +270,8 @@ class Classifier:
                     hook(x, f".{x.func.attr}() hashes/compares the value")
                     continue
                 callee = self.repo.resolve_callee(fi, x)
+                if callee is None and isinstance(x.func, (ast.Subscript, ast.Call)) and ta._table_callables(fi, x.func):
+                    continue  # `TABLE[key](...)`: a direct call through an entry of a dispatch table of the package, followed by the taint analysis
                 if callee is None and isinstance(x.func, ast.Name) and (fi.fq, x.func.id) in ta.fnvals:
                     continue  # a call through a local holding an entry of a module-level dispatch table: followed by the taint analysis
                 if callee is None and fi.qualname.startswith("<lambda") and isinstance(x.func, ast.Attribute) and isinstance(x.func.value, ast.Name) \
@@ -514,6 +516,20 @@ def rule_effects(ctx: Ctx, repo: Repo) -> None:
     ta = T.Taint(repo, seeds, in_scope)
     cl = Classifier(ctx, repo, ta)
     analysed = 0
+    # the function look-up (get_func and everything its source refers to in monkeytype.tracing) is decided by interpreting it
+    # on frames in which objects with attribute hooks sit in every place it looks at: each operation of the look-up that
+    # dispatches into such an object's class is reported, under the function and construct that performs it.  Where the
+    # look-up cannot be interpreted, its functions are classified like all the others.
+    from . import lookup_model as LM
+    try:
+        hostile = LM.hostile_results(repo)
+        lk_fns, lk_consts = LM.lookup_closure(repo)
+    except AnalysisError as e:
+        ctx.note(f"R-C03.1: the look-up is not interpretable here ({str(e)[:120]}); its functions are classified by the effect analysis instead")
+        hostile, lk_fns, lk_consts = None, set(), set()
+
+    def in_lookup(fq: str) -> bool:
+        return fq in lk_fns or any(isinstance(c, str) and f" of {c}>" in fq for c in lk_consts) or any(f"<lambda in {q.split('.', 2)[2]}>" in fq for q in lk_fns if q.count(".") >= 2)
     for fq, fi in sorted(ta.fns.items()):
         if not any(v >= T.CONT for v in ta.locals.get(fq, {}).values()) and not any(
             isinstance(x, ast.Attribute) and x.attr in T.FRAME_CONTAINERS for x in ast.walk(fi.node)
@@ -521,7 +537,29 @@ def rule_effects(ctx: Ctx, repo: Repo) -> None:
             continue
         ctx.functions.add(fq)
         analysed += 1
+        if hostile is not None and in_lookup(fq):
+            continue
         cl.run(fi)
+    if hostile is not None:
+        seen_t: Set[Tuple[str, str]] = set()
+        n_clean = 0
+        for what, kind, res, touches in hostile:
+            if kind != "return":
+                ctx.violate("R-C03.1", repo.fn(M, "get_func").fq, f"{what}: {res}", f"the look-up raises {res} in a world with hook-carrying objects ({what})")
+                continue
+            if not touches:
+                n_clean += 1
+                cl.ops += 1
+                ctx.ok("R-C03.1", repo.fn(M, "get_func").fq, f"no hook of a program object runs: {what}")
+            for ident, how, where, node, tfi in touches:
+                construct = _canon_locals(tfi, node) if (tfi is not None and node is not None) else how
+                if (where, construct) in seen_t:
+                    continue
+                seen_t.add((where, construct))
+                cl.ops += 1
+                ctx.violate("R-C03.1", where, construct, f"{how} on a value of the traced program can run user-defined code (reached with: {ident}; {what})", node=node)
+        ctx.count("R-C03.1:look-up worlds with hook-carrying objects", len(hostile))
+        ctx.floor("R-C03.1", "look-up worlds with hook-carrying objects", len(hostile), 5)
     ctx.count("R-C03.1:functions with program values", analysed)
     ctx.count("R-C03.1:classified operations", cl.ops)
     ctx.floor("R-C03.1", "functions of the tracer's call graph that handle program values", analysed, 7)
